@@ -125,10 +125,31 @@ def configs(tier):
     out.append({"ref": "C", "gt": None, "bound": 2 if tier == "quick" else 4, "nz": 5, "boundary": True})
     out.append({"custom": "K1", "bound": None, "nz": 2 if tier == "quick" else 3, "ncount": 3})
     out.append({"custom": "K2", "bound": 3 if tier == "quick" else 5, "nz": 5, "boundary": True})
+    # ---- non-initial states: the same sampler object re-initialised (other ground truth, mutated reference,
+    #      custom <-> measured parameters) before the draw that is judged
+    out.append({"ref": "B", "gt": ["c"], "history": [["init", ["a", "b"]]], "bound": None, "nz": 3})
+    out.append({"ref": "B", "gt": ["a", "b"], "history": [["init", None]], "bound": 3 if tier == "quick" else 5,
+                "nz": 5, "boundary": True})
+    out.append({"ref": "A", "gt": ["b"], "history": [["init", None], ["add", "a", 10, 12, "y"]], "bound": None, "nz": 3})
+    out.append({"ref": "A", "gt": None, "history": [["init", ["b"]], ["add", "b", 7, 7.5, "y"], ["init", ["a"]]],
+                "bound": 3 if tier == "quick" else 4, "nz": 5})
+    out.append({"ref": "A", "gt": ["b"], "history": [["custom", "K1"]], "bound": None, "nz": 3})
+    out.append({"custom": "K1", "history": [["initref", "A", None]], "bound": None, "nz": 2, "ncount": 3})
     if tier == "thorough":
         out.append({"ref": "B", "gt": ["a", "c"], "bound": 5, "nz": 5, "boundary": True})
         out.append({"ref": "A", "gt": None, "bound": 4, "nz": 5, "boundary": True})
     return out
+
+
+def cfg_spec(cfg):
+    """the reference continuum as it is when the judged initialisation happens (after the history's mutations)"""
+    spec = {"annotators": [[a, [list(u) for u in us]] for a, us in REFS[cfg["ref"]]["annotators"]]}
+    for step in cfg.get("history", []):
+        if step[0] == "add":
+            for a, us in spec["annotators"]:
+                if a == step[1]:
+                    us.append([step[2], step[3], step[4]])
+    return spec
 
 
 def cfg_gt(cfg):
@@ -147,7 +168,7 @@ def laws(cfg):
         return {"count": [(k["avg_num_units_per_annotator"], k["std_num_units_per_annotator"])],
                 "gap": [(k["avg_gap"], k["std_gap"])], "dur": [(k["avg_duration"], k["std_duration"])],
                 "cat": [(cats, w)]}
-    return accepted_params(REFS[cfg["ref"]], cfg_gt(cfg))
+    return accepted_params(cfg_spec(cfg), cfg_gt(cfg))
 
 
 def policy_for(cfg):
@@ -160,11 +181,21 @@ def make_fn_factory(cfg):
     pa = load()
 
     def make_fn():
+        from pyannote.core import Segment
         s = pa.StatisticalContinuumSampler()
+        c = build_continuum(REFS[cfg["ref"]]) if "ref" in cfg else None
+        for step in cfg.get("history", []):
+            if step[0] == "init":
+                s.init_sampling(c, step[1])
+            elif step[0] == "add":
+                c.add(step[1], Segment(step[2], step[3]), step[4])
+            elif step[0] == "custom":
+                s.init_sampling_custom(**CUSTOM[step[1]])
+            elif step[0] == "initref":
+                s.init_sampling(build_continuum(REFS[step[1]]), step[2])
         if "custom" in cfg:
             s.init_sampling_custom(**CUSTOM[cfg["custom"]])
         else:
-            c = build_continuum(REFS[cfg["ref"]])
             s.init_sampling(c, cfg.get("gt"))
 
         def fn():
